@@ -561,6 +561,8 @@ func c20Alphabet() []c20Op {
 		c20Op{Op: "expand", Name: "a", Val: ":?", Src: "${a:?msg}"}, c20Op{Op: "expand", Name: "a", Val: "arith:n++", Src: "$((a++))"},
 		c20Op{Op: "eval", Name: "a", Val: "n=1/0"}, c20Op{Op: "eval", Name: "A", Val: "n+=1"},
 		c20Op{Op: "walkmut", Name: "a A"}, c20Op{Op: "walkmut", Name: "A", Src: "_b1", Val: "new"},
+		// removal operators only read: neither the store nor Args may change (the result is C13's business)
+		c20Op{Op: "expand", Name: "@", Val: "removal", Src: "${@%?}"}, c20Op{Op: "expand", Name: "*", Val: "removal", Src: "\"${*#?}\""},
 	)
 	return ops
 }
@@ -587,6 +589,13 @@ func c20RandOp(r *rand.Rand) c20Op {
 		form := pick(r, []string{"plain", ":-", ":+", ":=", "=", ":?"})
 		if n == "@" || n == "*" {
 			form = "plain" // operators on $@ / $* are outside the pinned rows (see C13)
+		}
+		if r.IntN(4) == 0 {
+			// removal operators (also on $@ / $*): they only read, whatever they yield
+			if n == "#" || n == "01" || c20OddPositional[n] || n == "+1" {
+				n = "@"
+			}
+			return c20Op{Op: "expand", Name: n, Val: "removal", Src: fmt.Sprintf(pick(r, []string{"${%s%%?}", "${%s%%%%*}", "${%s#?}", "${%s##*}", "\"${%s%%[!x]}\"", "${%s%%%%}"}), n)}
 		}
 		src := map[string]string{"plain": "${%s}", ":-": "${%s:-dflt}", ":+": "${%s:+alt}", ":=": "${%s:=dflt}", "=": "${%s=dflt}", ":?": "${%s:?msg}"}[form]
 		if n == "#" || n == "01" || c20OddPositional[n] || n == "+1" {
